@@ -3,7 +3,7 @@
 # Confirms a round-4 contributed change in its scratch worktree /var/tmp/wt4/<Cxx> from /var/tmp/seeds4/<Cxx>-<x>/:
 # (1) with the change the 34 existing tests pass, (2) the demo FAILS with the change, (3) the demo PASSES without.
 # On success the change is copied to /verif/seeded/<Cxx>-<name>/ (patch.diff, demo.rs, meta.agent.json, confirm.log).
-c=$1; x=$2; wt=/var/tmp/wt4/$c; sd=/var/tmp/seeds4/$c-$x
+c=$1; x=$2; R=${ROUND:-4}; wt=/var/tmp/wt$R/$c; sd=/var/tmp/seeds$R/$c-$x
 export CARGO_NET_OFFLINE=true CARGO_TARGET_DIR=$wt/target
 cd $wt || exit 9
 [ -z "$(git status --short)" ] || { echo "worktree not clean"; git status --short | head; git checkout -- . ; git clean -fdq -e target; }
